@@ -42,6 +42,9 @@ def run(prog, chk):
     chk.rule(inscribed_for_placed_shape, prog, chk)
     from props import strops
     chk.rule(strops.check_for, prog, chk, "C12")  # A14.str-ops: how this property's strings are cut up is a reviewed, frozen inventory
+    chk.rule(strops.blank_only_separators, prog, chk)  # a pair / list cut at blanks is cut at tabs and newlines too
+    from props import C15 as _C15
+    chk.rule(_C15.scope_pairing, prog, chk, "A5.scope")  # a margin given as `$m`: a scope left behind by a failed group changes what it means
 
 
 def _lit(body, t, i):
